@@ -507,10 +507,12 @@ fn cmd_wrap(args: &[String]) -> i32 {
             let ref_lines: std::collections::HashSet<&str> = reference.lines().collect();
             let refs = strip(&reference);
             // the short form (first paragraph of every help text only)
-            let short = doc.monochrome(false);
-            let full = doc.monochrome(true);
-            writeln!(w, "{}", json!({"def": def["id"], "doc": docid, "kind": "short", "width": 100,
-                "short": tokens_of(&short), "full": tokens_of(&full)})).unwrap();
+            match std::panic::catch_unwind(std::panic::AssertUnwindSafe(|| (doc.monochrome(false), doc.monochrome(true)))) {
+                Ok((short, full)) => writeln!(w, "{}", json!({"def": def["id"], "doc": docid, "kind": "short", "width": 100,
+                    "short": tokens_of(&short), "full": tokens_of(&full)})).unwrap(),
+                // a panic of the code under test is an observed outcome, not a tool failure
+                Err(e) => writeln!(w, "{}", json!({"def": def["id"], "doc": docid, "width": 100, "panic": panic_text(&e)})).unwrap(),
+            }
             for &wd in &widths {
                 let text = match render(wd) {
                     Ok(t) => t,
